@@ -473,3 +473,61 @@ Proof.
   rewrite IH, qm_add_vals. destruct (bytes_eqb k (h_name hd)); [now rewrite <- app_assoc|reflexivity].
 Qed.
 
+(* ================= firstReqCachingStream ================= *)
+Lemma cs_plain n : forall s, cs_handler n (mk_cstream None None s) = direct_handler n s.
+Proof.
+  induction n as [|n IH]; intros s; [reflexivity|].
+  cbn [cs_handler direct_handler]. unfold cs_receive. cbn [cs_err cs_req cs_under].
+  destruct (under_recv s) as [x r]. rewrite IH. destruct (direct_handler n r). reflexivity.
+Qed.
+
+Lemma direct_calls n : forall s, snd (direct_handler n s) = n.
+Proof.
+  induction n as [|n IH]; intros s; [reflexivity|]. cbn [direct_handler].
+  destruct (under_recv s) as [x r]. specialize (IH r). destruct (direct_handler n r). simpl in *. congruence.
+Qed.
+
+(* a first request without raw response (or a failed first Receive): the handler behind the interceptor sees
+   exactly what it would see on the stream itself, for ANY script of stream outcomes and ANY number of Receives *)
+Lemma caching_transparent_proof script n started :
+  match script with RMsg _ true :: _ => False | _ => True end ->
+  wrap_streaming true started script n = WHandler (fst (direct_handler n script)) (Nat.max 1 n).
+Proof.
+  intros H. unfold wrap_streaming. cbn [negb].
+  destruct (under_recv script) as [x r] eqn:EU.
+  assert (HX : match x with RMsg _ true => False | _ => True end).
+  { destruct script as [|y s]; simpl in EU; injection EU as <- <-; [exact Logic.I|exact H]. }
+  assert (D : direct_handler n script =
+              match n with O => ([], O) | S n' => let (seen, calls) := direct_handler n' r in (x :: seen, S calls) end).
+  { destruct n; [reflexivity|]. cbn [direct_handler]. rewrite EU. reflexivity. }
+  rewrite D. destruct n as [|n'].
+  - destruct x as [d [|]|e]; [contradiction|reflexivity|reflexivity].
+  - pose proof (direct_calls n' r) as DC.
+    destruct x as [d [|]|e]; [contradiction| |];
+      cbn [cs_handler]; unfold cs_receive; cbn [cs_err cs_req cs_under]; rewrite cs_plain;
+      destruct (direct_handler n' r) as [seen calls]; simpl in DC; subst calls; reflexivity.
+Qed.
+
+Lemma interceptor_steps_aside_proof started script n :
+  wrap_streaming false started script n = WHandler (fst (direct_handler n script)) n.
+Proof.
+  unfold wrap_streaming. cbn [negb]. pose proof (direct_calls n script) as DC.
+  destruct (direct_handler n script); simpl in *. subst. reflexivity.
+Qed.
+
+Definition is_msg (x : recv) : Prop := match x with RMsg _ _ => True | RErr _ => False end.
+Lemma drain_spec msgs rest :
+  Forall is_msg msgs -> match rest with [] => True | RErr _ :: _ => True | _ => False end ->
+  drain (msgs ++ rest) = S (length msgs).
+Proof.
+  induction 1 as [|x msgs Hx _ IH]; intros HR.
+  - destruct rest as [|[|] ?]; [reflexivity|contradiction|reflexivity].
+  - destruct x; [|contradiction]. cbn [app drain length]. rewrite IH by exact HR. reflexivity.
+Qed.
+
+(* a first request with a raw response: the handler never runs; the raw response is stored and the request
+   stream is read up to its first error - unless a normal response had started, then nothing is stored *)
+Lemma raw_first_proof d rest n :
+  wrap_streaming true false (RMsg d true :: rest) n = WRaw (S (drain rest)) true 1 /\
+  wrap_streaming true true (RMsg d true :: rest) n = WRaw 1 false 2.
+Proof. split; reflexivity. Qed.
